@@ -15,5 +15,5 @@ Definition to_link (l : link) : Link.link :=
 Definition signed_nums (l : link) : option (nat * nat) := Link.signed_crossing_nums (to_link l).
 
 (* per-crossing signs, true = positive *)
-Definition crossing_signs (l : link) : option (list bool) :=
+Definition kh_crossing_signs (l : link) : option (list bool) :=
   option_map (map Link.is_pos) (Link.crossing_signs (to_link l)).
